@@ -14,6 +14,11 @@ def handle (_op : String) (args : List String) (impl : String) : String :=
   match parseReq args with
   | none => badReq "cfg"
   | some r =>
+    if args.any (·.startsWith "sdneg=") then
+      -- a source date before 1970: the setter panics today (C17's known finding, not C11's business); a package built
+      -- nevertheless carries times later than the requested date, whatever they are
+      answer "panic" (if impl.startsWith "ok " then "fails:buildtime-after-source-date" else "dontcare") "unrepresentable-source-date"
+    else
     if !impl.startsWith "ok " then answer "ok" (if impl == "err" then "dontcare" else "fails:" ++ impl) "build-rejected" else
     let itoks := (impl.splitOn " ").filter (· ≠ "")
     let paysha := tok itoks "paysha"; let archsha := tok itoks "archsha"
